@@ -121,6 +121,8 @@ struct Answers {
 
 impl Answers {
     fn get_unique_token(&self) -> usize {
+        #[cfg(assets_manager_verif)]
+        detsim::atomic_point(detsim::AT_TOKEN, "answers.token");
         self.next_token.fetch_add(1, Ordering::Relaxed)
     }
 
